@@ -117,13 +117,12 @@ theorem c09_paths (d : DCtx) (w : World) (config : Option Str) (s0 : Sid) (rest 
 
 /-- NOT ON THE SPLITTING: `sorted_search` runs one star search per re-resolved search; the answer
     is also the pick over what ONE star search over all of them returns (`R`), under the
-    hypotheses of `C11.c11_star_list_mem` (`hstr`: searches rendering the same (type, pattern)
-    pair have the same string — true for the Sids `Sid(...)` produces) -/
+    hypotheses of `C11.c11_star_list_mem` -/
 theorem c09_paths_joint (d : DCtx) (w : World) (config : Option Str) (s0 : Sid) (rest : List Sid)
     (idx : Nat) (hidx : GtAt idx s0.string) (stars : List Sid)
     (hres : Ctx.mapE (fun x => d.resolveSearch (gtStar x.uri)) (s0 :: rest) = .ok stars)
     (hsp : ∀ s' ∈ stars, HasPattern d w config s')
-    (hgm : ∀ s' ∈ stars, '[' ∉ s'.string) (hstr : SameStr d config stars)
+    (hgm : ∀ s' ∈ stars, '[' ∉ s'.string)
     (htot : ∀ p ∈ w.nodes.map (·.1), ∃ x, d.ctx.sidOfPath p config = .ok x) :
     ∃ R, d.pathsStarSids w config stars = .ok R ∧
       d.pathsDoFind w config (s0 :: rest) = .ok (sortedPick idx (R.map (·.string))) := by
@@ -131,14 +130,14 @@ theorem c09_paths_joint (d : DCtx) (w : World) (config : Option Str) (s0 : Sid) 
     rcases hsp s hs with ⟨pat, h⟩ | ⟨h, _⟩
     · exact ⟨_, h⟩
     · exact ⟨_, h⟩
-  obtain ⟨R, hR, _⟩ := C11.c11_star_list_mem d w config stars hsp' hgm hstr htot
+  obtain ⟨R, hR, _⟩ := C11.c11_star_list_mem d w config stars hsp' hgm htot
   obtain ⟨rs, hrs, h2, _⟩ := GtL.paths_gt d w config s0 rest idx hidx stars hres hsp hgm htot
   refine ⟨R, hR, ?_⟩
   rw [h2]
   congr 1
   apply C09.c09_pick_set
   intro y
-  have := GtL.paths_joint d w config stars rs R hsp' hgm hstr htot hrs hR
+  have := GtL.paths_joint d w config stars rs R hsp' hgm htot hrs hR
   simp only [List.mem_map, this]
 
 /-- the same for `FindInPaths(config).find(search)` on a search string -/
